@@ -40,6 +40,11 @@ from . import c17_space as space
 LEVEL = "exploration"
 
 _EX = None
+# Names that stand for *bound Python identifiers* in the forms (see c17_space.BOUND).  xonsh decides
+# "Python or subprocess?" per line from the set of bound names: command words (ls, echo, cmd ...)
+# are unbound, the grammar's variables are bound - as in any real program.  XV_C17_CTX=empty
+# switches to the all-unbound reading (every line that can be a command is one).
+_CTX = frozenset() if os.environ.get("XV_C17_CTX") == "empty" else space.BOUND
 _FMT = None
 _FORMS = None
 _K = 1
@@ -81,12 +86,12 @@ def _parse(text):
     hit = _parse_cache.get(text)
     if hit is not None:
         return hit
-    signal.setitimer(signal.ITIMER_REAL, 10.0)
+    signal.setitimer(signal.ITIMER_REAL, 30.0)
     try:
-        tree = _EX.parse(text, ctx=set())
+        tree = _EX.parse(text, ctx=set(_CTX))
         res = ("ok", None if tree is None else ast.dump(tree))
     except _Timeout:
-        res = ("err", "hang>10s")
+        res = ("err", "hang>30s")
     except SyntaxError:
         res = ("err", "SyntaxError")
     except RecursionError:
@@ -120,13 +125,13 @@ def _fmt(text):
     hit = _fmt_cache.get(text)
     if hit is not None:
         return hit
-    signal.setitimer(signal.ITIMER_REAL, 10.0)
+    signal.setitimer(signal.ITIMER_REAL, 30.0)
     try:
         res = ("ok", _FMT.format_source(text))
     except _FMT.FormatError as e:
         res = ("reject", str(e)[:80])
     except _Timeout:
-        res = ("crash", "hang>10s")
+        res = ("crash", "hang>30s")
     except Exception as e:  # noqa: BLE001
         res = ("crash", type(e).__name__)
     finally:
@@ -176,32 +181,85 @@ def _cli_file(data: bytes):
 
 
 # ---------------------------------------------------------------- failure signatures (root-cause keys)
+#
+# A key names a ROOT CAUSE, not an input:  <clause>:<feature>  or  <clause>:<mode>:<edit>:<site>.
+#   feature  the failing input contains a narrowly defined lexical feature (FEATURES below) and the
+#            same input with exactly that feature repaired passes the clause ("repair transform");
+#   else     the formatter's output is compared with its input gap by gap (the formatter re-emits
+#            token text verbatim, so input and output normally differ only in white space), the
+#            first single gap edit that alone makes the clause fail is located and described by
+#              mode  which kind of xonsh text holds the first tree difference: with_macro /
+#                    call_macro (inside the raw arguments), subproc (the statement contains
+#                    subprocess-mode text), py, or output-unparsable,
+#              edit  class of the gap before > after (0 = no gap, sp = blanks, nl = line break,
+#                    indent),
+#              site  lexical class of the neighbouring tokens (operator class, line start / end,
+#                    inside STRING / COMMENT / FSTRING, before a comment, at a continuation ...).
+# A different defect edits a different kind of gap, or changes a different kind of node, and so
+# gets a different key.
+
+import re
+
+_WS = " \t\r\n\f"
 
 
 def _cls(s):
-    """class of an inserted / deleted piece of text"""
+    """class of a gap text"""
     if s == "":
         return "0"
-    if s.strip(" \t") == "":
+    if s.strip(" \t\f") == "":
         return "sp"
-    if s.strip(" \t\r\n") == "":
+    if s.strip(_WS) == "":
         return "nl"
-    if s.strip(" \t\r\n\\") == "":
-        return "bsnl"
-    if s.lstrip(" \t").startswith("#"):
-        return "cmt"
     return "txt"
 
 
+def _gap_hunks(a, b):
+    """Differing white-space gaps of a and b as (i1,i2,j1,j2,part) or None when the non-blank
+    characters differ.  A gap that holds a line break on both sides is split into its three
+    layers: blanks at the end of the line, the line breaks (blank lines), the next line's indent."""
+    i = j = 0
+    hs = []
+    na, nb = len(a), len(b)
+    while True:
+        i0, j0 = i, j
+        while i < na and a[i] in _WS:
+            i += 1
+        while j < nb and b[j] in _WS:
+            j += 1
+        ga, gb = a[i0:i], b[j0:j]
+        if ga != gb:
+            if "\n" in ga and "\n" in gb:
+                fa, la = ga.index("\n"), ga.rindex("\n") + 1
+                fb, lb = gb.index("\n"), gb.rindex("\n") + 1
+                if ga[:fa] != gb[:fb]:
+                    hs.append((i0, i0 + fa, j0, j0 + fb, "trail"))
+                if ga[fa:la] != gb[fb:lb]:
+                    hs.append((i0 + fa, i0 + la, j0 + fb, j0 + lb, "lines"))
+                if ga[la:] != gb[lb:]:
+                    hs.append((i0 + la, i, j0 + lb, j, "indent"))
+            else:
+                hs.append((i0, i, j0, j, "gap"))
+        if i >= na or j >= nb:
+            return hs if (i >= na and j >= nb) else None
+        if a[i] != b[j]:
+            return None
+        i += 1
+        j += 1
+
+
 def _hunks(a, b):
+    hs = _gap_hunks(a, b)
+    if hs is not None:
+        return hs
     sm = difflib.SequenceMatcher(None, a, b, autojunk=False)
-    return [(i1, i2, j1, j2) for tag, i1, i2, j1, j2 in sm.get_opcodes() if tag != "equal"]
+    return [(i1, i2, j1, j2, "text") for tag, i1, i2, j1, j2 in sm.get_opcodes() if tag != "equal"]
 
 
 def _apply(a, b, hunks):
     out = []
     pos = 0
-    for i1, i2, j1, j2 in hunks:
+    for i1, i2, j1, j2, _part in hunks:
         out.append(a[pos:i1])
         out.append(b[j1:j2])
         pos = i2
@@ -209,182 +267,399 @@ def _apply(a, b, hunks):
     return "".join(out)
 
 
-_KW = None
+_CMPAUG = frozenset("== != <= >= -> := += -= *= /= //= %= **= @= |= &= ^= <<= >>=".split())
+_OPENERS = frozenset(("(", "[", "{", "$(", "$[", "${", "!(", "![", "@(", "@!(", "@$("))
+_CLOSERS = frozenset((")", "]", "}"))
+_WORDS = frozenset(("NAME", "NUMBER", "STRING", "DOLLARNAME", "SEARCHPATH", "FSTRING_START", "FSTRING_MIDDLE", "FSTRING_END", "ATDOLLAR"))
 
 
-def _abstract(tok):
+def _tokclass(tok):
     from xonsh.parsers import tokenize as T
     import keyword
 
     if tok is None:
         return "^"
     t, s = tok.type, tok.string
-    if t == T.NAME:
-        return s if keyword.iskeyword(s) else "NAME"
-    if t == T.NUMBER:
-        return "NUM"
-    if t == T.STRING:
-        return "STR"
-    if t in (T.NEWLINE, T.NL):
-        return "EOL"
+    if t == T.NAME and keyword.iskeyword(s):
+        return "kw"
     if t == T.COMMENT:
         return "CMT"
-    if t in (T.INDENT, T.DEDENT):
-        return "IND"
     if t == T.ENDMARKER:
         return "EOF"
     name = T.tok_name.get(t, str(t))
+    if name in _WORDS:
+        return "w"
+    if name.startswith("IOREDIRECT"):
+        return "ioredir"
     if name in ("OP", "ERRORTOKEN"):
-        return s.replace("\r", "").replace("\n", "N").replace(" ", "_") or name
+        if s in ("\\\n", "\\\r\n"):
+            return "CONT"
+        if s == "\\":
+            return "BSLASH"
+        if s in _CMPAUG:
+            return "cmpaug"
+        if s in _OPENERS:
+            return "open"
+        if s in _CLOSERS:
+            return "close"
+        return s
     return name
 
 
-def _locate(text, i1, i2):
-    """Describe position [i1,i2) of `text` lexically: (left, right, bracket, inside)."""
+def _line_offsets(src):
+    starts = [0]
+    for ln in src.split("\n")[:-1]:
+        starts.append(starts[-1] + len(ln) + 1)
+    return starts
+
+
+def _string_regions(text):
+    """[(start, end, kind)] character spans of STRING tokens and of whole f-strings."""
     from xonsh.parsers import tokenize as T
 
     toks, _ = _tokens(text)
     if toks is None:
-        return ("?", "?", "?", "")
+        return []
     src = text if text.endswith("\n") else text + "\n"
-    starts = [0]
-    for ln in src.split("\n")[:-1]:
-        starts.append(starts[-1] + len(ln) + 1)
+    starts = _line_offsets(src)
 
     def off(pos):
         ln, col = pos
         return starts[ln - 1] + col if 0 < ln <= len(starts) else len(src)
 
-    openers = {"(", "[", "{", "$(", "$[", "${", "!(", "![", "@(", "@!(", "@$("}
+    out = []
+    fstack = []
+    for t in toks:
+        if t.type == T.STRING:
+            out.append((off(t.start), off(t.end), "STRING"))
+        elif t.type == T.FSTRING_START:
+            fstack.append(off(t.start))
+        elif t.type == T.FSTRING_END and fstack:
+            s = fstack.pop()
+            if not fstack:
+                out.append((s, off(t.end), "FSTRING"))
+    return out
+
+
+def _fstring_literal_at(text, s, pos):
+    """Is `pos` in a literal (not {expression}) part of the f-string starting at s?"""
+    depth = 0
+    i = s
+    while i < pos:
+        c = text[i]
+        if c == "{":
+            if depth == 0 and text[i : i + 2] == "{{":
+                i += 2
+                continue
+            depth += 1
+        elif c == "}":
+            if depth == 0 and text[i : i + 2] == "}}":
+                i += 2
+                continue
+            depth = max(0, depth - 1)
+        i += 1
+    return depth == 0
+
+
+def _site(text, h):
+    """Lexical class of the gap that the edit h of `text` touches."""
+    from xonsh.parsers import tokenize as T
+
+    i1, i2, _j1, _j2, part = h
+    toks, _ = _tokens(text)
+    if toks is None:
+        return "untokenisable"
+    for s, e, kind in _string_regions(text):
+        if s < i1 and i2 < e or (s < i1 < e) or (s < i2 < e):
+            if kind == "STRING" or _fstring_literal_at(text, s, max(i1, s + 1)):
+                return "in-" + kind
+    src = text if text.endswith("\n") else text + "\n"
+    starts = _line_offsets(src)
+
+    def off(pos):
+        ln, col = pos
+        return starts[ln - 1] + col if 0 < ln <= len(starts) else len(src)
+
     left = right = None
-    inside = ""
     stack = []
     for t in toks:
-        if t.type in (T.ENCODING, T.INDENT, T.DEDENT):
-            continue
-        if t.string == "" and t.type != T.ENDMARKER:
+        if t.type in (T.ENCODING, T.INDENT, T.DEDENT, T.FSTRING_MIDDLE, T.NEWLINE, T.NL):
             continue
         s, e = off(t.start), off(t.end)
+        if t.type == T.OP and e <= i1:
+            if t.string in _OPENERS:
+                stack.append(t.string)
+            elif t.string in _CLOSERS and stack:
+                stack.pop()
+        if t.type == T.ERRORTOKEN and t.string.strip(" \t\f") == "":
+            if s <= i2 and i1 <= e:
+                return "at-whitespace-errortoken"
+            continue
+        if t.type in (T.OP, T.ERRORTOKEN) and t.string in ("\\\n", "\\\r\n"):
+            e = s + 1
         if e < s:
             continue
-        if t.type in (T.STRING, T.COMMENT, T.FSTRING_MIDDLE):
-            if (i1 < i2 and max(i1, s) < min(i2, e)) or (i1 == i2 and s < i1 < e):
-                inside = T.tok_name.get(t.type, "?")
+        if t.type == T.COMMENT:
+            # inside subprocess brackets the tokenizer glues the blanks before '#' to the comment
+            s += len(t.string) - len(t.string.lstrip())
+            if s < i1 < e or (s < i2 <= e and i1 < i2):
+                return "in-COMMENT"
+        if t.type == T.ENDMARKER:
+            if right is None:
+                right = t
+            continue
         if e <= i1:
             left = t
-            if t.type == T.OP:
-                if t.string in openers:
-                    stack.append(t.string)
-                elif t.string in (")", "]", "}") and stack:
-                    stack.pop()
         elif right is None and s >= i2:
             right = t
-    brk = stack[-1] if stack else "-"
-    if inside:
-        return ("", "", brk, inside)
-    return (_abstract(left), _abstract(right), brk, "")
+    L, R = _tokclass(left), _tokclass(right)
+    if part == "trail":
+        return "after-backslash" if L in ("BSLASH", "CONT") else "line-end"
+    if part == "lines":
+        return "blank-lines"
+    if part == "indent":
+        return "continuation-line-start" if L == "CONT" else "line-start"
+    if "\n" in text[i1:i2]:
+        return "line-break"
+    if L == "BSLASH" and R == "EOF":
+        return "after-backslash"
+    if R == "EOF":
+        return "line-end"
+    if R == "CONT":
+        return "before-continuation"
+    if R == "CMT":
+        return "before-comment"
+    if L == "^":
+        return "line-start"
+    # operator sites carry the innermost enclosing bracket: `a:b` in a slice, a dict, a call, a
+    # subprocess capture or at statement level are governed by different formatter rules
+    brk = "/" + stack[-1] if stack else ""
+    if "ioredir" in (L, R) and "w" not in (L, R):
+        return f"{L}|{R}"
+    for x in (R, L):
+        if x in (",", ";", ":"):
+            return "@" + x + brk
+    if "=" in (L, R):
+        return "@=" + brk
+    if "cmpaug" in (L, R):
+        return "@cmpaug" + brk
+    if L == "open":
+        return "@open"
+    if R == "close":
+        return "@close"
+    if L == "kw" or R == "kw":
+        return "@kw"
+    return f"{L}|{R}"
 
 
-_HELPERS = (
-    "enter_macro",
-    "call_macro",
-    "subproc_captured_stdout",
-    "subproc_captured_inject",
-    "subproc_captured_object",
-    "subproc_captured_hiddenobject",
-    "subproc_uncaptured",
-    "path_literal",
-    "env",
-    "pathsearch",
-    "regexsearch",
-    "glob",
-    "eval_fstring_field",
-    "help",
-    "superhelp",
-)
+def _is_xcall(node):
+    if isinstance(node, ast.Call) and isinstance(node.func, ast.Attribute) and isinstance(node.func.value, ast.Name) and node.func.value.id == "__xonsh__":
+        return node.func.attr
+    return None
 
 
-def _ast_ctx(src_a, src_b):
-    """Innermost xonsh helper call that encloses the first difference of the two trees."""
+def _mode(src_a, src_b):
+    """Kind of xonsh text that holds the first difference of the two trees."""
     try:
-        ta = _EX.parse(src_a, ctx=set())
-        tb = _EX.parse(src_b, ctx=set())
+        ta = _EX.parse(src_a, ctx=set(_CTX))
+        tb = _EX.parse(src_b, ctx=set(_CTX))
     except Exception:  # noqa: BLE001
-        return "noparse"
+        return "unparsable"
     if ta is None or tb is None:
         return "empty"
+    found = {}
 
-    def helper(node):
-        if isinstance(node, ast.Call) and isinstance(node.func, ast.Attribute) and isinstance(node.func.value, ast.Name) and node.func.value.id == "__xonsh__":
-            return node.func.attr
-        return None
-
-    def walk(a, b, ctx):
+    def walk(a, b, macro, stmts):
+        """-> True when the first difference was found below (a, b)"""
         if type(a) is not type(b):
-            return ctx + ":" + type(a).__name__ + "/" + type(b).__name__
+            found.update(macro=macro, stmts=stmts)
+            return True
         if isinstance(a, ast.AST):
-            h = helper(a)
-            if h is not None and h == helper(b) and h in _HELPERS:
-                ctx = h
+            h = _is_xcall(a)
+            if h in ("enter_macro", "call_macro") and h == _is_xcall(b):
+                macro = "with_macro" if h == "enter_macro" else "call_macro"
+            if isinstance(a, ast.stmt):
+                stmts = (a, b)
             for f in a._fields:
-                r = walk(getattr(a, f, None), getattr(b, f, None), ctx)
-                if r:
-                    return r
-            return None
+                if walk(getattr(a, f, None), getattr(b, f, None), macro, stmts):
+                    return True
+            return False
         if isinstance(a, list):
-            if len(a) != len(b):
-                return ctx + ":len"
             for x, y in zip(a, b):
-                r = walk(x, y, ctx)
-                if r:
-                    return r
-            return None
+                if walk(x, y, macro, stmts):
+                    return True
+            if len(a) != len(b):
+                found.update(macro=macro, stmts=stmts)
+                return True
+            return False
         if a != b:
-            return ctx + ":" + type(a).__name__
-        return None
+            found.update(macro=macro, stmts=stmts)
+            return True
+        return False
 
-    return walk(ta, tb, "py") or "same"
+    if not walk(ta, tb, None, (ta, tb)):
+        return "same"
+    if found["macro"]:
+        return found["macro"]
+    for node in found["stmts"]:
+        for sub in ast.walk(node):
+            h = _is_xcall(sub)
+            if h and h.startswith("subproc_") and h != "subproc_check_boolop":
+                return "subproc"
+    return "py"
 
 
 def _culprit(src, out, bad):
-    """First single hunk of diff(src, out) whose application alone makes `bad` true; falls back
-    to the shortest bad prefix of hunks.  -> (hunk, applied text, 'single'|'prefix'|'all')"""
+    """Smallest edit of diff(src, out) that makes `bad` true: the first single gap edit that does so
+    alone; otherwise edits are reverted one by one (all indentation edits as one group) while the
+    result stays bad.  -> (hunk, edited text)"""
     hs = _hunks(src, out)
+    if not hs:
+        return (0, 0, 0, 0, "gap"), out
     for h in hs:
         t = _apply(src, out, [h])
         if bad(t):
-            return h, t, "single"
-    for j in range(2, len(hs) + 1):
-        t = _apply(src, out, hs[:j])
-        if bad(t):
-            return hs[j - 1], t, "prefix"
-    return (hs[-1] if hs else (0, 0, 0, 0)), out, "all"
+            return h, t
+    ind = [h for h in hs if h[4] == "indent"]
+    keep = list(hs)
+    groups = [[h] for h in hs if h not in ind] + ([ind] if ind else [])
+    for g in reversed(groups):
+        trial = [h for h in keep if h not in g]
+        if trial and bad(_apply(src, out, trial)):
+            keep = trial
+    first = [h for h in keep if h not in ind] or keep
+    return first[0], _apply(src, out, keep)
 
 
-def _hunk_sig(src, out, h):
-    i1, i2, j1, j2 = h
-    left, right, brk, inside = _locate(src, i1, i2)
-    op = f"{_cls(src[i1:i2])}>{_cls(out[j1:j2])}"
-    where = f"in-{inside}" if inside else f"{left}|{right}"
-    return f"{op}:{where}:{brk}"
+_SITE_FEATURE = {"after-backslash": "blanks-after-backslash", "in-STRING": "blanks-at-eol-inside-multiline-string", "in-FSTRING": "blanks-at-eol-inside-multiline-string"}
+
+
+def _edit_sig(src, out, h):
+    i1, i2, j1, j2, part = h
+    site = _site(src, h)
+    edit = "indent" if part == "indent" else f"{_cls(src[i1:i2])}>{_cls(out[j1:j2])}"
+    return edit, site
+
+
+# --- input features with a repair transform (known multi-symptom root causes)
+
+_BS_WS = re.compile(r"\\[ \t\f]+(?=\r?\n|$)")
+_MACRO_GAP = re.compile(r"(?<=\w)(?:\s|\\\r?\n|#[^\n]*\n)+(?=!\()")
+_FDEBUG = re.compile(r"(?:\s|\\\r?\n|#[^\n]*\n)*=(?:\s|\\\r?\n|#[^\n]*\n)*(?=[}!])")
+
+
+def _repair_bs_ws(text):
+    """blanks between a backslash and the end of its line removed"""
+    return _BS_WS.sub(r"\\", text)
+
+
+def _repair_mlstring_ws(text):
+    """blanks at the end of the inner lines of multi-line string literals removed"""
+    out = text
+    for s, e, _kind in sorted(_string_regions(text), reverse=True):
+        body = out[s:e]
+        if "\n" in body:
+            out = out[:s] + re.sub(r"[ \t]+(?=\r?\n)", "", body) + out[e:]
+    return out
+
+
+def _repair_macro_gap(text):
+    """blanks between a name and the `!(` of a function-macro call removed"""
+    return _MACRO_GAP.sub("", text)
+
+
+def _repair_fdebug(text):
+    """the `=` of self-documenting f-string fields ({expr = }) removed, with the blanks around it"""
+    out = text
+    for s, e, kind in sorted(_string_regions(text), reverse=True):
+        if kind == "FSTRING":
+            out = out[:s] + _FDEBUG.sub("", out[s:e]) + out[e:]
+    return out
+
+
+FEATURES = [
+    ("blanks-after-backslash", _repair_bs_ws),
+    ("blanks-at-eol-inside-multiline-string", _repair_mlstring_ws),
+    ("blanks-between-name-and-macro-paren", _repair_macro_gap),
+    ("blanks-in-fstring-debug-field", _repair_fdebug),
+]
+
+
+def _by_feature(text, passes):
+    """Name of the first feature whose repair alone makes the clause pass; when no single repair
+    does but all of them together do, the first feature that is present.  Else None."""
+    present = []
+    cur = text
+    for name, repair in FEATURES:
+        try:
+            fixed = repair(text)
+            cur = repair(cur)
+        except Exception:  # noqa: BLE001
+            continue
+        if fixed != text:
+            present.append(name)
+            if passes(fixed):
+                return name
+    if len(present) > 1 and cur != text and passes(cur):
+        return present[0]
+    return None
+
+
+def _tree_passes(text):
+    tin = _parse(text)
+    if tin[0] != "ok":
+        return True  # out of scope
+    r = _fmt(text)
+    return r[0] != "ok" or _parse(r[1]) == tin
+
+
+def _idem_passes(text):
+    r = _fmt(text)
+    if r[0] != "ok":
+        return True
+    return _fmt(r[1]) == r
+
+
+def _comment_passes(text):
+    toks, _ = _tokens(text)
+    r = _fmt(text)
+    if toks is None or r[0] != "ok":
+        return True
+    otoks, _ = _tokens(r[1])
+    return otoks is not None and _comments(toks) == _comments(otoks)
 
 
 def _tree_key(src, out, tin, tout):
+    feat = _by_feature(src, _tree_passes)
+    if feat:
+        return f"tree:{feat}", dict(FEATURES)[feat](src)
     if tout[0] != "ok":
-        def bad(t):
-            return _parse(t)[0] != "ok"
-        h, t, how = _culprit(src, out, bad)
-        return f"tree:output-unparsable:{_hunk_sig(src, out, h)}", t
-    def bad(t):  # noqa: E306
-        return _parse(t) != tin
-    h, t, how = _culprit(src, out, bad)
-    return f"tree:{_ast_ctx(src, t)}:{_hunk_sig(src, out, h)}", t
+        h, t = _culprit(src, out, lambda t: _parse(t)[0] != "ok")
+        edit, site = _edit_sig(src, out, h)
+        if site == "at-whitespace-errortoken":
+            return "tree:whitespace-errortoken", t
+        return f"tree:output-unparsable:{edit}:{site}", t
+
+    def bad(t):
+        r = _parse(t)
+        return r[0] == "ok" and r != tin
+
+    h, t = _culprit(src, out, bad)
+    edit, site = _edit_sig(src, out, h)
+    if site in _SITE_FEATURE and edit == "sp>0":
+        return f"tree:{_SITE_FEATURE[site]}", t
+    if site == "at-whitespace-errortoken":
+        return "tree:whitespace-errortoken", t
+    mode = _mode(src, t)
+    if mode == "with_macro":
+        return "tree:with_macro:body-reformatted", t
+    return f"tree:{mode}:{edit}:{site}", t
 
 
 # ---------------------------------------------------------------- one case
 
 
-def evaluate(src, file_path=False):
+def evaluate(src, file_path=False, tree_clause=True):
     """Apply every clause of the statement to one program text.
     -> (flags dict, [violation dicts without 'case'])"""
     flags = {}
@@ -424,28 +699,44 @@ def evaluate(src, file_path=False):
             viols.append(dict(key=f"cli:file-differs-from-format_source:{outcome}", clause="the CLI writes exactly format_source's result (or nothing)", observed={"cli": outcome, "file": got}, expected=want))
     # idempotence
     res2 = _fmt(out)
-    if res2[0] != "ok":
-        viols.append(dict(key=f"idem:output-{res2[0]}:{res2[1] if res2[0] == 'crash' else ''}", clause="formatting the output again changes nothing", observed={"fmt": out, "fmt_fmt": list(res2)}, expected="fmt(fmt(s)) == fmt(s)"))
-    elif res2[1] != out:
-        hs = _hunks(out, res2[1])
-        viols.append(dict(key=f"idem:{_hunk_sig(out, res2[1], hs[0])}", clause="formatting the output again changes nothing", observed={"fmt": out, "fmt_fmt": res2[1]}, expected="fmt(fmt(s)) == fmt(s)"))
+    if res2 != res:
+        feat = _by_feature(text, _idem_passes)
+        if feat:
+            key = f"idem:{feat}"
+        elif res2[0] != "ok":
+            key = f"idem:output-{res2[0]}:{res2[1] if res2[0] == 'crash' else ''}"
+        else:
+            edit, site = _edit_sig(out, res2[1], _hunks(out, res2[1])[0])
+            if site == "at-whitespace-errortoken":
+                key = "idem:whitespace-errortoken"
+            elif site in ("continuation-line-start", "before-continuation", "line-break") and _repair_bs_ws(text) != text:
+                # the first pass turned `\<blanks><newline>` into a real continuation, which the
+                # second pass then lays out as one
+                key = "idem:blanks-after-backslash"
+            else:
+                key = f"idem:{edit}:{site}"
+        viols.append(dict(key=key, clause="formatting the output again changes nothing", observed={"fmt": out, "fmt_fmt": res2[1] if res2[0] == "ok" else list(res2)}, expected="fmt(fmt(s)) == fmt(s)"))
     # comments
     otoks, oerr = _tokens(out)
-    if otoks is None:
-        viols.append(dict(key=f"comment:output-untokenisable:{oerr}", clause="comment text preserved", observed={"fmt": out}, expected="tokenisable output"))
-    else:
-        ci, co = _comments(toks), _comments(otoks)
-        if ci:
-            flags["has_comment"] = 1
-        if ci != co:
+    ci = _comments(toks)
+    if ci:
+        flags["has_comment"] = 1
+    co = None if otoks is None else _comments(otoks)
+    if ci != co:
+        feat = _by_feature(text, _comment_passes)
+        if feat:
+            key = f"comment:{feat}"
+        elif co is None:
+            key = f"comment:output-untokenisable:{oerr}"
+        else:
             kind = "dropped" if len(co) < len(ci) else "added" if len(co) > len(ci) else "changed"
-            h = (_hunks(text, out) or [(0, 0, 0, 0)])[0]
-            for hh in _hunks(text, out):
-                if "#" in text[hh[0] : hh[1]] or "#" in out[hh[2] : hh[3]]:
-                    h = hh
-                    break
-            viols.append(dict(key=f"comment:{kind}:{_hunk_sig(text, out, h)}", clause="comment text preserved (same sequence)", observed={"fmt": out, "comments": co}, expected={"comments": ci}))
+            hs = _hunks(text, out) or [(0, 0, 0, 0, "gap")]
+            h = next((hh for hh in hs if "#" in text[hh[0] : hh[1]] or "#" in out[hh[2] : hh[3]]), hs[0])
+            key = "comment:%s:%s:%s" % ((kind,) + _edit_sig(text, out, h))
+        viols.append(dict(key=key, clause="comment text preserved (same sequence)", observed={"fmt": out, "comments": co}, expected={"comments": ci}))
     # tree
+    if not tree_clause:
+        return flags, viols
     tin = _parse(text)
     if tin[0] != "ok":
         flags["input_unparsable"] = 1
@@ -462,7 +753,7 @@ def evaluate(src, file_path=False):
             dict(
                 key=key,
                 clause="output parses to the same tree as the input",
-                observed={"fmt": out, "tree_fmt": tout[1] if tout[0] == "ok" else list(tout), "single_edit_that_changes_the_tree": minimal},
+                observed={"fmt": out, "tree_fmt": tout[1] if tout[0] == "ok" else list(tout), "smallest_edit_that_changes_the_tree": minimal},
                 expected={"tree_input": tin[1]},
             )
         )
@@ -478,7 +769,7 @@ def _case_rank(case):
 
 def _do_form(item):
     """All layouts (<= k deviations) of one form, plus every prefix of its canonical rendering."""
-    fi, part = item
+    fi, part, nparts = item
     fam, core, text = _FORMS[fi]
     lines = space.parse_form(text)
     k = _KCORE if core else _K
@@ -486,35 +777,66 @@ def _do_form(item):
     best = {}  # key -> (rank, violation dict)
     counts = {}
     seen_src = set()
-    n = 0
+    memo = {}
 
-    def run_one(src, case, file_path):
-        flags, viols = evaluate(src, file_path=file_path)
+    def ev(src, file_path, tree_clause=True):
+        mk = (src, file_path, tree_clause)
+        if mk not in memo:
+            memo[mk] = evaluate(src, file_path=file_path, tree_clause=tree_clause)
+        return memo[mk]
+
+    def ev_devs(devs):
+        d = dict(devs)
+        src = space.render(lines, d)
+        return src, ev(src, ("eol",) in d or ("final",) in d or not devs)
+
+    def record(v, case, src):
+        counts[v["key"]] = counts.get(v["key"], 0) + 1
+        v = dict(v, case=dict(case, src=src))
+        r = _case_rank(v["case"])
+        if v["key"] not in best or r < best[v["key"]][0]:
+            best[v["key"]] = (r, v)
+
+    def tally(src, flags):
         stats["evaluations"] = stats.get("evaluations", 0) + 1
         if src not in seen_src:
             seen_src.add(src)
             stats["distinct"] = stats.get("distinct", 0) + 1
             for f in flags:
                 stats[f] = stats.get(f, 0) + 1
-        for v in viols:
-            counts[v["key"]] = counts.get(v["key"], 0) + 1
-            v["case"] = dict(case, src=src)
-            r = _case_rank(v["case"])
-            if v["key"] not in best or r < best[v["key"]][0]:
-                best[v["key"]] = (r, v)
 
     for idx, devs in enumerate(space.layouts(lines, k)):
-        if idx % _NPARTS != part:
+        if idx % nparts != part:
             continue
-        d = dict(devs)
-        src = space.render(lines, d)
-        file_path = ("eol",) in d or ("final",) in d or not devs
-        run_one(src, {"form": text, "family": fam, "devs": space.devs_to_json(devs)}, file_path)
-        n += 1
+        src, (flags, viols) = ev_devs(devs)
+        tally(src, flags)
+        for v in viols:
+            # minimise the layout first: drop every deviation the failure of this clause does not
+            # need; the key is the one of the minimal failing layout (which is itself enumerated)
+            clause = v["key"].split(":", 1)[0]
+            cur, adopted = tuple(devs), None
+            for d in devs:
+                trial = tuple(x for x in cur if x != d)
+                _s2, (_f2, v2s) = ev_devs(trial)
+                same = [w for w in v2s if w["key"].split(":", 1)[0] == clause]
+                if same:
+                    cur, adopted = trial, same[0]
+            if adopted is not None:
+                stats["cases_reduced_to_smaller_layout"] = stats.get("cases_reduced_to_smaller_layout", 0) + 1
+                record(adopted, {"form": text, "family": fam, "devs": space.devs_to_json(cur), "reduced_from": space.devs_to_json(devs)}, space.render(lines, dict(cur)))
+            else:
+                record(v, {"form": text, "family": fam, "devs": space.devs_to_json(devs)}, src)
     if part == 0 and core:
         canon = space.render(lines, {})
         for cut in range(1, len(canon) - 1):
-            run_one(canon[:cut], {"form": text, "family": fam, "devs": [], "cut": cut}, True)
+            # prefixes are for the tokenisation clause (and idempotence / comments); their trees
+            # are mostly accidents of where the cut fell, so the tree clause is not applied
+            src = canon[:cut]
+            flags, viols = ev(src, True, False)
+            tally(src, flags)
+            stats["prefix_cases"] = stats.get("prefix_cases", 0) + 1
+            for v in viols:
+                record(v, {"form": text, "family": fam, "devs": [], "cut": cut}, src)
     _parse_cache.clear()
     _fmt_cache.clear()
     return {"stats": stats, "viols": [b[1] for b in best.values()], "counts": counts}
@@ -522,7 +844,7 @@ def _do_form(item):
 
 def _configure(ctx):
     global _FORMS, _K, _KCORE, _NPARTS
-    _FORMS = space.forms(ctx.thorough)
+    _FORMS = [(fam, core, text) for fam, core, quick, text in space.forms() if ctx.thorough or quick]
     _K = 1
     _KCORE = 2 if ctx.thorough else 1
     _NPARTS = 8 if ctx.thorough else 1
@@ -533,7 +855,10 @@ def run(ctx):
 
     ensure_tables(completion=False)
     _configure(ctx)
-    items = [(fi, p) for fi in range(len(_FORMS)) for p in range(_NPARTS if _FORMS[fi][1] else 1)]
+    items = []
+    for fi in range(len(_FORMS)):
+        nparts = _NPARTS if _FORMS[fi][1] else 1
+        items += [(fi, p, nparts) for p in range(nparts)]
     ctx.log(f"{len(_FORMS)} forms ({sum(1 for f in _FORMS if f[1])} core at k={_KCORE}, rest at k={_K}); {len(items)} work items")
     res = common.pmap(_do_form, items, ctx.jobs, chunk=1, init=_init_worker, seed=ctx.seed)
     stats = {}
@@ -585,11 +910,14 @@ def run(ctx):
         changed_by_formatter=stats.get("changed", 0),
         with_comments=stats.get("has_comment", 0),
         through_cli_file=stats.get("cli", 0),
+        prefix_cases=stats.get("prefix_cases", 0),
+        failing_cases_reduced_to_smaller_layout=stats.get("cases_reduced_to_smaller_layout", 0),
         violating_cases_by_key=counts,
         bounds={"k_all": _K, "k_core": _KCORE},
     )
     ctx.assumptions += [
-        "names are unbound (ctx=set()): every line that can be a subprocess command is parsed as one - the most whitespace-sensitive reading",
+        ("all names are unbound (XV_C17_CTX=empty)" if not _CTX else "the grammar's variables (a b c x y f ...) are bound names and command words (ls echo cmd ...) are not, as in a real program; Execer.parse gets ctx=that set")
+        + ": xonsh's parser decides Python-or-subprocess per line from the bound names",
         "'cannot be tokenised' is defined by xonsh.parsers.tokenize.tokenize(tolerant=False) raising",
         "small-scope hypothesis: defects need at most k simultaneous layout deviations in one of the enumerated forms",
     ]
@@ -609,7 +937,7 @@ def replay(rec):
             print("note: the recorded layout no longer renders to the recorded text; replaying the recorded text")
     d = dict(space.devs_from_json(case.get("devs", [])))
     file_path = ("eol",) in d or ("final",) in d or not d or "cut" in case
-    flags, viols = evaluate(src, file_path=file_path)
+    flags, viols = evaluate(src, file_path=file_path, tree_clause="cut" not in case)
     print("input   :", repr(src))
     print("fmt     :", repr(_fmt(src.replace("\r\n", "\n") if file_path else src)))
     hit = [v for v in viols if v["key"] == rec["key"]]
